@@ -246,10 +246,10 @@ func ruleS9(c *Ctx) {
 	for i := 0; i < st.NumFields(); i++ {
 		f := st.Field(i)
 		if isNamed(f.Type(), modPath+"/triple/predicate", "Predicate") {
-			opField = f.Name()
+			opField = fieldCanon(f)
 		}
 		if isNamed(f.Type(), "time", "Time") {
-			otaField = f.Name()
+			otaField = fieldCanon(f)
 		}
 	}
 	if opField == "" || otaField == "" {
